@@ -33,7 +33,7 @@ next_kind(void)
 static int
 io_error(int kind)
 {
-    errno = (kind == VERIF_IO_EINTR) ? EINTR : ((kind == VERIF_IO_EAGAIN) ? EAGAIN : EIO);
+    errno = (kind == VERIF_IO_EINTR) ? EINTR : ((kind == VERIF_IO_EAGAIN) ? EAGAIN : ((kind == VERIF_IO_ERROR) ? EIO : ENOBUFS));
     return -1;
 }
 
